@@ -173,7 +173,12 @@ func LetterTemplate(letter byte) corev1.PodTemplateSpec {
 	c := corev1.Container{Name: "agent", Image: "img:" + string(letter)}
 	tpl := corev1.PodTemplateSpec{ObjectMeta: metav1.ObjectMeta{Labels: map[string]string{"app": "agent"}}, Spec: corev1.PodSpec{Containers: []corev1.Container{c}}}
 	switch letter {
+	case 'B':
+		// the pod template's own metadata differs too (labels and annotations are part of the template)
+		tpl.Labels["rev"] = "b"
+		tpl.Annotations = map[string]string{"checksum/config": "b1"}
 	case 'C':
+		tpl.Annotations = map[string]string{"checksum/config": "c1", "note": "c"}
 		tpl.Spec.Containers[0].Env = []corev1.EnvVar{{Name: "X", Value: "1"}}
 		tpl.Spec.Containers = append(tpl.Spec.Containers, corev1.Container{Name: "side", Image: "side:1"})
 	case 'D':
